@@ -474,6 +474,23 @@ def c13_slices(tier):
 # and without the crash) is in the projection
 C13_FATAL = {"*:*"}
 
+# ------------------------------------------------------------------------ C18
+def c18_stages(ctx):
+    import lib
+    th = ctx.tier == "thorough"
+    defs = "MC_Ids == {1,2,3}\nMC_Z == 0..6\nMC_NZ == 1..6\nMC_Del == {1,6}\nMC_Del1 == {1}\nMC_N2 == {1,5}\nMC_R2 == {2,3}\nMC_R1 == {2}\nMC_C3 == {3}"
+    cfg = ["CONSTANTS", " Q = 7", " Ids <- MC_Ids", " T = 2", " Secrets <- MC_NZ", " Coeffs <- MC_C3", " Tweaks <- MC_Z",
+           " NonceVals <- MC_N2", " Rhos <- %s" % ("MC_R2" if th else "MC_R1"), " Chals <- MC_NZ",
+           " Deltas <- %s" % ("MC_Del" if th else "MC_Del1"), "INIT Init", "NEXT Next", "CHECK_DEADLOCK FALSE",
+           "INVARIANTS InvOutputKey InvTweakedShares InvBip340 InvShareCheck InvNoForgery InvNotUntweaked"]
+    lib.plain_tlc(ctx, "parity_design_q7", "C18", cfg, defs, timeout=3000)
+    defs2 = defs.replace("0..6", "0..10").replace("1..6", "1..10").replace("{1,6}", "{1,10}")
+    cfg2 = [c.replace("Q = 7", "Q = 11").replace("T = 2", "T = 3").replace("MC_N2", "MC_R1").replace("MC_R2", "MC_R1")
+            .replace(" Deltas <- MC_Del\b", " Deltas <- MC_Del1") for c in cfg]
+    lib.plain_tlc(ctx, "parity_design_q11_t3", "C18", cfg2, defs2, timeout=3000)
+    lib.taproot_stage(ctx)
+
+
 PROPS = {
     "C01": dict(slices=c01_slices, fatal=C01_FATAL, traces=True, level="model_checking",
                 rule="TLC enumerates every behaviour of the C01 schedule within each slice's constants; "
@@ -562,6 +579,16 @@ PROPS = {
                      "the crash under one seed must agree on every output",
                 assumptions=["TLC 1.8.0 and the CommunityModules", "the toy ciphersuite and interpreter in /verif/harness",
                              "the toy-to-real argument of DESIGN 6.2"]),
+    "C18": dict(stages=[c18_stages], fatal=set(), level="model_checking",
+                rule="model: the Taproot negation/tweak algebra over the toy field with an abstract parity, exhaustive over "
+                     "secrets, tweak values, nonces, challenges, cheater positions (all 8 parity combinations reachable, ASSUMEd); "
+                     "code: sessions of the real suite until all 2 x 4 x 8 (key source, root kind, parities) combinations "
+                     "occurred, each with a 5 x 3 fault matrix, validated by TLC against the model's outcome rules with libsecp256k1 "
+                     "as the independent BIP-340/341 implementation",
+                level_note="the Taproot overrides are not generic over the ciphersuite, so there is no toy replay: the model decides "
+                           "the design, the trace specification binds the real suite to the model's outcome rules (DESIGN 7, C18)",
+                assumptions=["TLC 1.8.0", "libsecp256k1 (secp256k1 crate) and sha2 as independent BIP-340/341 implementation",
+                             "parities observed through the public EvenY trait"]),
     "C04": dict(slices=c04_slices, fatal=C04_FATAL, level="model_checking", traces=True,
                 rule="TLC enumerates every filling of the share slots (honest / off by d / negated / zero / another "
                      "signer's / another session's share) for every signer subset within the slice constants and runs "
